@@ -160,6 +160,145 @@ static inline VmTrap trap_error(VmState *vm, VmResult err, const char *fmt, ...)
     return t;
 }
 
+#ifdef NANOLANG_VERIF
+#include "verif_hooks.h"
+/* ---- H1: state trace.  One ndjson line per event; the state S is the projection the TLA+
+ * specification talks about: operand stack and locals, frames, globals, live heap objects with
+ * reference counts and children.  A value is 0 (not a heap reference), the registry id of the
+ * object it points to, or -1 (pointer to something that is not a live object). ---- */
+static long nlv_steps = 0;
+static int nlv_val(NanoValue v) {
+    if (v.tag == TAG_STRING || v.tag == TAG_ARRAY || v.tag == TAG_STRUCT || v.tag == TAG_UNION ||
+        v.tag == TAG_TUPLE || v.tag == TAG_HASHMAP || v.tag == TAG_FUNCTION) {
+        if (!v.as.obj) return 0;
+        return nlv_reg_id(v.as.obj);
+    }
+    return 0;
+}
+static void nlv_vals(FILE *f, const NanoValue *v, uint32_t n) {
+    fputc('[', f);
+    for (uint32_t i = 0; i < n; i++) fprintf(f, "%s%d", i ? "," : "", nlv_val(v[i]));
+    fputc(']', f);
+}
+static void nlv_state(FILE *f, VmState *vm) {
+    fprintf(f, "\"S\":{\"stack\":");
+    nlv_vals(f, vm->stack, vm->stack_size);
+    fprintf(f, ",\"frames\":[");
+    for (uint32_t i = 0; i < vm->frame_count; i++) {
+        NanoValue cv = {0};
+        cv.tag = TAG_FUNCTION; cv.as.closure = vm->frames[i].closure;
+        fprintf(f, "%s{\"base\":%u,\"nloc\":%u,\"clo\":%d}", i ? "," : "", vm->frames[i].stack_base,
+                (unsigned)vm->frames[i].local_count, vm->frames[i].closure ? nlv_val(cv) : 0);
+    }
+    fprintf(f, "],\"globals\":");
+    nlv_vals(f, vm->globals, vm->global_count);
+    fprintf(f, ",\"heap\":[");
+    int first = 1;
+    for (int sidx = 0; sidx < nlv_reg_cap(); sidx++) {
+        int id, tag;
+        const void *p = nlv_reg_ptr_at(sidx, &id, &tag);
+        if (!p) continue;
+        const VmHeapHeader *h = (const VmHeapHeader *)p;
+        fprintf(f, "%s{\"id\":%d,\"k\":%d,\"rc\":%u,\"c\":", first ? "" : ",", id, tag, h->ref_count);
+        first = 0;
+        if (tag == TAG_STRING) {
+            const VmString *s = (const VmString *)p;
+            fprintf(f, "%u,\"kids\":[]}", (unsigned)((s->hash ^ (s->length * 2654435761u)) & 0x3FFFFFFF));
+        } else {
+            fprintf(f, "0,\"kids\":");
+            switch (tag) {
+            case TAG_ARRAY:  nlv_vals(f, ((const VmArray *)p)->elements, ((const VmArray *)p)->length); break;
+            case TAG_STRUCT: nlv_vals(f, ((const VmStruct *)p)->fields, ((const VmStruct *)p)->field_count); break;
+            case TAG_UNION:  nlv_vals(f, ((const VmUnion *)p)->fields, ((const VmUnion *)p)->field_count); break;
+            case TAG_TUPLE:  nlv_vals(f, ((const VmTuple *)p)->elements, ((const VmTuple *)p)->count); break;
+            case TAG_FUNCTION: nlv_vals(f, ((const VmClosure *)p)->captures, ((const VmClosure *)p)->capture_count); break;
+            case TAG_HASHMAP: {
+                const VmHashMap *m = (const VmHashMap *)p;
+                int fk = 1;
+                fputc('[', f);
+                for (uint32_t b = 0; b < m->bucket_count; b++)
+                    for (const VmHMEntry *e = m->buckets[b]; e; e = e->next) {
+                        fprintf(f, "%s%d,%d", fk ? "" : ",", nlv_val(e->key), nlv_val(e->value)); fk = 0;
+                    }
+                fputc(']', f);
+                break;
+            }
+            default: fprintf(f, "[]");
+            }
+            fputc('}', f);
+        }
+    }
+    fprintf(f, "]}");
+}
+/* event before the instruction at vm->ip is executed; returns 1 when the budget is exhausted */
+static int nlv_step(VmState *vm, uint32_t code_end) {
+    long fuel = nlv_fuel();
+    nlv_steps++;
+    if (fuel >= 0 && nlv_steps > fuel) return 1;
+    FILE *f = nlv_trace_file();
+    if (!f) return 0;
+    DecodedInstruction di;
+    const uint8_t *code = vm->module->code;
+    uint32_t n = isa_decode(code + vm->ip, code_end - vm->ip, &di);
+    const InstructionInfo *info = n ? isa_get_info(di.opcode) : NULL;
+    fprintf(f, "{\"e\":\"op\",\"fn\":%u,\"ip\":%u,\"op\":\"%s\",\"a\":[", vm->current_fn, vm->ip, info ? info->name : "?");
+    if (info) for (int i = 0; i < info->operand_count; i++) {
+        long long v = 0;
+        switch (info->operands[i]) {
+        case OPERAND_U8: v = di.operands[i].u8; break;   case OPERAND_U16: v = di.operands[i].u16; break;
+        case OPERAND_U32: v = (long long)(di.operands[i].u32 & 0x3FFFFFFF); break;
+        case OPERAND_I32: v = di.operands[i].i32; break;
+        default: v = 0; break;      /* wide immediates are not needed by the specification */
+        }
+        fprintf(f, "%s%lld", i ? "," : "", v);
+    }
+    /* auxiliary scalar the action depends on: the index operand of array opcodes (clamped), the arity of a callee */
+    long long aux = -1;
+    if (info && vm->stack_size >= 1) {
+        NanoValue top = vm->stack[vm->stack_size - 1];
+        if (di.opcode == OP_ARR_GET || di.opcode == OP_ARR_REMOVE) aux = top.tag == TAG_INT ? top.as.i64 : -1;
+        if (di.opcode == OP_ARR_SET && vm->stack_size >= 2) { NanoValue i2 = vm->stack[vm->stack_size - 2]; aux = i2.tag == TAG_INT ? i2.as.i64 : -1; }
+        if (aux > 1000000) aux = 1000000;
+        if (aux < -1) aux = -1;
+    }
+    if (info && (di.opcode == OP_CALL) && di.operands[0].u32 < vm->module->function_count)
+        aux = vm->module->functions[di.operands[0].u32].arity * 65536LL + vm->module->functions[di.operands[0].u32].local_count;
+    if (info && (di.opcode == OP_CALL_INDIRECT || di.opcode == OP_CLOSURE_CALL) && vm->stack_size >= 1) {
+        NanoValue top = vm->stack[vm->stack_size - 1];
+        if (top.tag == TAG_FUNCTION && top.as.closure && nlv_reg_id(top.as.closure) > 0 &&
+            top.as.closure->fn_idx < vm->module->function_count)
+            aux = vm->module->functions[top.as.closure->fn_idx].arity * 65536LL + vm->module->functions[top.as.closure->fn_idx].local_count;
+    }
+    if (info && di.opcode == OP_PUSH_STR) {
+        const char *ps = nvm_get_string(vm->module, di.operands[0].u32);
+        if (!ps) ps = "";
+        aux = (long long)nlv_str_key(ps, (uint32_t)strlen(ps));
+    }
+    if (info && di.opcode == OP_CALL_EXTERN && di.operands[0].u32 < vm->module->import_count)
+        aux = vm->module->imports[di.operands[0].u32].param_count;
+    fprintf(f, "],\"aux\":%lld,", aux);
+    nlv_state(f, vm);
+    fprintf(f, "}\n");
+    return 0;
+}
+/* other events: core returned (trap), host released a trap value, host set up a call, run ended */
+static void nlv_event(VmState *vm, const char *what, int val) {
+    FILE *f = nlv_trace_file();
+    if (!f) return;
+    fprintf(f, "{\"e\":\"%s\",\"val\":%d,", what, val);
+    nlv_state(f, vm);
+    fprintf(f, "}\n");
+    fflush(f);
+}
+#define NLV_STEP(vm, end) do { if (nlv_step((vm), (end))) return trap_error((vm), VM_ERR_NOT_IMPLEMENTED, "verif: instruction budget exhausted"); } while (0)
+#define NLV_EVENT(vm, what, val) nlv_event((vm), (what), (val))
+#define NLV_VAL(v) nlv_val(v)
+#else
+#define NLV_STEP(vm, end) ((void)0)
+#define NLV_EVENT(vm, what, val) ((void)0)
+#define NLV_VAL(v) 0
+#endif
+
 /* ========================================================================
  * Core Execution Engine (the "processor")
  *
@@ -178,6 +317,7 @@ VmTrap vm_core_execute(VmState *vm) {
 
     /* Main dispatch loop */
     while (vm->ip < code_end) {
+        NLV_STEP(vm, code_end);
         DecodedInstruction instr;
         uint32_t consumed = isa_decode(code + vm->ip, code_end - vm->ip, &instr);
         if (consumed == 0) {
@@ -1804,31 +1944,40 @@ VmResult vm_call_function(VmState *vm, uint32_t fn_idx, NanoValue *args, uint16_
     vm->ip = fn->code_offset;
 
     /* Run the core in a loop, handling traps */
+    NLV_EVENT(vm, "call", (int)fn_idx);
     for (;;) {
         VmTrap trap = vm_core_execute(vm);
 
         switch (trap.type) {
         case TRAP_NONE:
+            NLV_EVENT(vm, "ret_none", 0);
             return VM_OK;
 
         case TRAP_HALT:
+            NLV_EVENT(vm, "ret_halt", 0);
             return VM_OK;
 
         case TRAP_PRINT:
+            NLV_EVENT(vm, "ret_trap", NLV_VAL(trap.data.print.value));
             val_print(trap.data.print.value, vm_out(vm));
             if (trap.data.print.newline) fprintf(vm_out(vm), "\n");
             vm_release(&vm->heap, trap.data.print.value);
+            NLV_EVENT(vm, "host_release", 0);
             break;
 
         case TRAP_ASSERT:
+            NLV_EVENT(vm, "ret_trap", NLV_VAL(trap.data.assert_check.condition));
             if (!val_truthy(trap.data.assert_check.condition)) {
                 vm_release(&vm->heap, trap.data.assert_check.condition);
+                NLV_EVENT(vm, "host_release", 0);
                 return vm_error(vm, VM_ERR_ASSERT_FAILED, "Assertion failed");
             }
             vm_release(&vm->heap, trap.data.assert_check.condition);
+            NLV_EVENT(vm, "host_release", 0);
             break;
 
         case TRAP_EXTERN_CALL: {
+            NLV_EVENT(vm, "ret_extern", trap.data.extern_call.argc);
             NanoValue ext_result;
             char ext_err[256];
             bool ffi_ok;
@@ -1849,10 +1998,12 @@ VmResult vm_call_function(VmState *vm, uint32_t fn_idx, NanoValue *args, uint16_
             }
             /* Push result back onto the VM stack for the core to consume */
             stack_push(vm, ext_result);
+            NLV_EVENT(vm, "host_extern", 0);
             break;
         }
 
         case TRAP_ERROR:
+            NLV_EVENT(vm, "ret_error", (int)trap.data.error.code);
             return trap.data.error.code;
         }
     }
